@@ -22,12 +22,17 @@ def maxLen : Insn → Nat
   | .jsr _ => 5
   | .tableswitch _ _ _ tb => 16 + 4 * tb.length
   | .lookupswitch _ ps => 12 + 8 * ps.length
+  | .cp _ _ => 3
+  | .invokeinterface _ _ => 5
+  | .newarray _ => 2
+  | .multianewarray _ _ => 4
 
 def maxSize (is : List Insn) : Nat := (is.map maxLen).sum
 
-/-- `high - low + 1` does not overflow `i32` -/
+/-- `high - low + 1` does not overflow `i32`; an `invokeinterface` descriptor has at most 254 argument slots -/
 def rangeOk : Insn → Bool
   | .tableswitch _ lo hi _ => decide (hi - lo < 2147483647)
+  | .invokeinterface _ desc => (match argsSize desc with | .error .panic => false | _ => true)
   | _ => true
 
 /-- the domain on which every failure of the code array is a clean error -/
@@ -67,6 +72,14 @@ theorem encInsn_len {isWide : Bool} {lbl : Nat → Option Nat} {p k : Nat} {i : 
     simp only [encInsn, encRet] at h; cases h
     simp only [maxLen]
     split <;> simp [u16b]
+  | cp op idx => simp only [encInsn] at h; cases h; simp [maxLen, u16b]
+  | invokeinterface idx desc =>
+    simp only [encInsn] at h
+    split at h
+    · cases h
+    · cases h; simp [maxLen, u16b]
+  | newarray t => simp only [encInsn] at h; cases h; simp [maxLen]
+  | multianewarray idx d => simp only [encInsn] at h; cases h; simp [maxLen, u16b]
   | ifc c t =>
     simp only [encInsn, encIf] at h
     simp only [maxLen]
@@ -149,6 +162,15 @@ theorem encInsn_no_panic {isWide : Bool} {lbl : Nat → Option Nat} {p k : Nat} 
     split
     · split <;> simp
     · split <;> simp
+  | invokeinterface idx desc =>
+    simp only [rangeOk] at hr
+    simp only [encInsn]
+    cases ha : argsSize desc with
+    | error e =>
+      cases e with
+      | err => simp
+      | panic => simp [ha] at hr
+    | ok c => simp
   | _ => simp [encInsn]
 
 theorem pass_no_panic (wide : List Nat) (is : List Insn) :
